@@ -90,3 +90,10 @@ check(
     "Trusts the reference distance / weighting in vf/props/c14.py; boxes whose tolerance-widened extent leaves the query convention's own range are not generated (the statement leaves them undefined); distances within 1e-9 of a threshold are not judged.",
     "DESIGN.md section 5 C14",
 )
+check(
+    "C15",
+    "Hypothesis-generated parameter sets (scalars and DataArrays) for the four frequency shapes and both spreading functions; Hs measured by an independent reference and by the accessor, identities between shapes, normalisation / non-negativity of spreading, and measured dm / dspr against the request within an independently computed n-point aliasing bound",
+    "Hundreds (quick) / tens of thousands (thorough) of parameter sets per facet: frequency grids of every kind either side of the 0.333 Hz threshold, 8..72 directions starting anywhere, mean directions next to 0/360, spreads 5..75 degrees. Exploration.",
+    "Trusts vf/ref/stats.py for Hs and the independent cos^2s evaluation for the aliasing bound; under-resolved cases (bound > 0.05 deg) only checked for normalisation, as designed.",
+    "DESIGN.md section 5 C15",
+)
